@@ -9,7 +9,7 @@ PROPERTY = "C12"
 READY = True
 THEOREMS = [
     "C12.marks", "C12.resize_exact", "C12.fit_exact", "C12.blanks_are_blanks", "C12.width_bounds", "C12.rectangular", "C12.separators",
-    "C12.cell_content", "C12.cell_default", "C12.full_when_fits", "C12.title_content", "C12.limits",
+    "C12.cell_content", "C12.cell_default", "C12.full_when_fits", "C12.cell_len_exact", "C12.title_content", "C12.limits",
     "C12.print_twice", "C12.interleaved", "C12.interleaved_run", "C12.fmt_obj_same", "C12.ctor_options", "C12.fmt_obj_ignores_printing", "C12.field_positions",
     "C12.setter_bounds", "C12.ctor_bounds", "C12.widths_faithful",
 ]
@@ -1713,27 +1713,31 @@ ASSUMPTIONS = ["cell values contain no line break; at least one visible column (
                "by the property: the oracle accepts both names; the model follows the code (dict lookup: known)",
                "widths in format strings use ASCII digits (int() also accepts other Unicode decimal digits)"]
 
-LEVEL_TEXT = ("Kernel-checked for all tables of the model (any records, columns, widths, limits, titles, enum types): "
-              "fit_to_width/resize_chunks_list give exactly the asked width and only pad or cut-and-dot; resize is the "
-              "resize_chunks_list of the CHText model of C08 (fit_exact, resize_exact, blanks_are_blanks); every printed "
-              "line has length sum(widths)+ncols+1 (rectangular); title and record lines carry '|' under every '+' of "
-              "the border, framed lines start and end with '|' (separators); the characters between two separators are "
-              "the fitted text of that record's own field / of the field's own title line (cell_content, cell_default, "
-              "title_content); negotiated widths lie within min/max in every reachable state (width_bounds) and are on "
-              "the first printing wide enough for every visible cell and the title up to max (full_when_fits); every "
-              "record appears in order, break lines only directly before a record; with limits exactly first/last "
-              "lines plus one skipped line whose number is the count of hidden records (>= 1) and adds up to the "
-              "total (limits); printing has no memory: a second printing prints the same and changes nothing "
-              "(print_twice), interleaved line iterators over several tables each yield their own table's lines "
-              "(interleaved); a table built with fmt_obj= from another table's format and the same records prints the "
-              "same, both limits included, and limits=/skip_columns= act as given (fmt_obj_same, ctor_options, "
-              "widths_faithful) and is the same table whether or not the donor had been printed "
-              "(fmt_obj_ignores_printing: siblings from one format object share nothing); a name at index i of "
-              "fields=[...] reads record[i] whatever precedes it, a RecordField object keeps its own position "
-              "(field_positions); bounds written in a format - zero included - are the column's bounds through the "
-              "setter and through the constructor, the field type's own bounds otherwise (setter_bounds, ctor_bounds). "
-              "User-written field types (own bounds, centre alignment, free-text modifiers) are part of the model. Model = code rests on the differential run (all rendered lines compared exactly, also "
-              "per iterator and for fmt_obj tables).")
+LEVEL_TEXT = ("Kernel-checked on the model; every theorem about a rendering is conditional on `render t = .ok ...` (there "
+              "is no totality theorem: that a well-formed table prints at all rests on the tie). "
+              "fit_to_width/resize_chunks_list give exactly the asked width and only pad (left/right/centre) or "
+              "cut-and-dot; resize is the resize_chunks_list of the CHText model of C08 (fit_exact, resize_exact, "
+              "blanks_are_blanks); every printed line has length sum(widths)+ncols+1 (rectangular); title and record "
+              "lines carry '|' under every '+' of the border, framed lines start and end with '|' (separators); the "
+              "characters between two separators are the fitted text of that record's own field / of the field's own "
+              "title line (cell_content, cell_default, title_content); negotiated widths satisfy w <= max always and "
+              "min <= w when min <= max, in every reachable state (width_bounds; with contradictory bounds min > max the "
+              "maximum wins); on the first printing every column is at least as wide as the negotiation length of "
+              "every visible cell and of the title, up to max (full_when_fits) - for the default and user-written "
+              "field types that length is the printed text's length (cell_len_exact), so a value that fits max is "
+              "never cut; for enum columns the code computes the length separately ('val' = widest key) and a cell "
+              "may be cut although max would allow it: nothing is claimed there; every record appears in order, break "
+              "lines only directly before a record; for natural-number limits first, last >= 0: exactly first/last "
+              "lines plus one skipped line whose number is the count of hidden records (>= 1) and adds up to the total "
+              "(limits; negative limits are modelled and tied, not covered); printing has no memory (print_twice), "
+              "interleaved line iterators each yield their own table's lines (interleaved, interleaved_run); a table "
+              "built with fmt_obj= from another table's format and the same records prints the same, both limits "
+              "included, limits=/skip_columns= act as given, and it is the same table whether or not the donor had "
+              "been printed (fmt_obj_same, ctor_options, widths_faithful, fmt_obj_ignores_printing); a name at index i "
+              "of fields=[...] reads record[i], a RecordField object keeps its own position (field_positions); bounds "
+              "written in a format - zero included - are the column's bounds through setter and constructor "
+              "(setter_bounds, ctor_bounds). User-written field types are part of the model. Model = code rests on the "
+              "differential run (all rendered lines compared exactly, per iterator, for fmt_obj tables and siblings).")
 LEVEL_NOTE = ("Trusted: Lean kernel, translator (constants of ak/ppobj.py regenerated on each run: dots, border marks, "
               "default widths, texts; C08's constants for the CHText chunk operations), adapter/wire format in "
               "harness/c12.py, sampled correspondence. Colours are not modelled (all chunks plain: no_color=True; "
